@@ -286,6 +286,36 @@ example :
          .unquoted ⟨1, [99]⟩] false := by
   decide +kernel
 
+/-- The typed scalar calls need no hypothesis: whatever the value, the text `write_bool`,
+`write_i32` / `write_u32` / `write_i64` / `write_u64` and `write_date` (all three formats, with or
+without hour, negative years) produce is a well-formed unquoted scalar of the text format
+(non-empty, no boundary byte, not starting with a blank, `"` or `@`). -/
+theorem C15_typed_scalars_valid (c : SCall) (h : c.isTyped) : c.scal.Valid := by
+  apply scall_valid
+  cases c <;> first | trivial | exact h.elim
+
+/-- Flat documents whose values are typed scalar calls (booleans, integers, dates) parse back to
+exactly the described tokens: only the caller-supplied keys have to be scalars of the format.
+(`C15_parse_back_flat` / `C15_parse_back_nested` cover the typed calls in every position, keys
+included; this is the instance without a hypothesis on the values.) -/
+theorem C15_parse_back_typed (fs : List FField) (c : UInt8) (f : Nat)
+    (hk : ∀ x ∈ fs, x.key.Valid) (hv : ∀ x ∈ fs, x.val.isTyped)
+    (hb : TextTape.hasBom (run (fcalls fs) (State.init c f)).1.out = false) :
+    ∃ T, TextTape.parse (run (fcalls fs) (State.init c f)).1.out = .ok T false ∧
+      T.map TextTape.Tok.erase = TextTape.contentFlat (fs.map fun x => x.item.content) := by
+  refine C15_parse_back_flat fs c f (fun x hx => ⟨hk x hx, ?_⟩) hb
+  have := hv x hx
+  cases hval : x.val <;> rw [hval] at this <;> first | trivial | exact this.elim
+
+/-- `a=yes`, `b=-5`, `c=1444.11.11`, `d=-005-01-02T09` -/
+example : TextTape.parse (run (fcalls [⟨.unq [97], none, .bool true⟩, ⟨.unq [98], none, .i64 (-5)⟩,
+      ⟨.unq [99], none, .date .dotShort 1444 11 11 0⟩, ⟨.unq [100], none, .date .iso8601 (-5) 1 2 10⟩])
+      (State.init 32 2)).1.out =
+    .ok [.unquoted ⟨39, [97]⟩, .unquoted ⟨37, [121, 101, 115]⟩, .unquoted ⟨33, [98]⟩, .unquoted ⟨31, [45, 53]⟩,
+         .unquoted ⟨28, [99]⟩, .unquoted ⟨26, [49, 52, 52, 52, 46, 49, 49, 46, 49, 49]⟩, .unquoted ⟨15, [100]⟩,
+         .unquoted ⟨13, [45, 48, 48, 53, 45, 48, 49, 45, 48, 50, 84, 48, 57]⟩] false := by
+  decide +kernel
+
 /-- `C15_lexemes` for nested objects, to any depth and for every indent byte and factor: a call
 list that writes root fields whose values are scalars (`write_unquoted` / `write_quoted`) or
 non-empty objects (`write_object_start … write_end`), with implicit or explicit operators, produces
